@@ -37,11 +37,18 @@ R23b      offsets and line/column agree:
               ``<segment>.pos_marker.to_source_dict()``; entries hoisted from a fix are hoisted per
               half together with their offset unless the guard established their equality.
 
+R23c      output writers (GitHub annotation / native annotation / SARIF in cli/commands.py): an
+          entry, item store or f-string field whose *target* key names a line (``start_line``,
+          ``endLine``, ``line=``) is filled from a ``*_line_no`` record entry, one that names a
+          column (``start_column``, ``endColumn``, ``col=``) from a ``*_line_pos`` entry; the
+          fallback of ``record.get(<end key>, <fallback>)`` is of the same class.  Keys are
+          classified by their words (public output schemas), values by the record schema suffix.
+
 NOT decided: that the anchor segment chosen by a rule is the offending code; that the source
 slices the lexer/templater assign to templated segments are tight; the converter's arithmetic
 (C31); errors constructed without a marker (file-level templating failures carry explicit or
-default coordinates); the SARIF / GitHub annotation writers' key mapping; positions computed in
-rules or utils (outside the eight modules).
+default coordinates); whether an annotation writer pairs start with start and end with end;
+positions computed in rules or utils (outside the eight modules).
 """
 
 from __future__ import annotations
@@ -91,6 +98,8 @@ def run(chk) -> None:
     )
     _r23a(chk, repo)
     _r23b(chk, repo)
+    chk.rule("R23c", "annotation / SARIF writers fill line-named output keys from *_line_no record entries and column-named keys from *_line_pos entries (including the fallback of .get)")
+    _r23c(chk, repo)
 
 
 # ---------------------------------------------------------------------------
@@ -577,6 +586,84 @@ def _r23b(chk, repo) -> None:
             )
 
 
+def _key_class(key: str) -> Optional[str]:
+    """LINE / COL / SRC for an output key, from its words (``start_line``, ``endColumn``, ``col``)."""
+    import re
+
+    toks = [t.lower() for t in re.findall(r"[A-Za-z][a-z]*", key)]
+    if not toks:
+        return None
+    if "column" in toks or "col" in toks or toks[-2:] == ["line", "pos"]:
+        return "COL"
+    if toks[-2:] == ["file", "pos"] or "offset" in toks:
+        return "SRC"
+    if "line" in toks:
+        return "LINE"
+    return None
+
+
+def _record_read(e) -> Optional[Tuple[str, Optional[ast.expr]]]:
+    """(record key, fallback) when ``e`` is ``rec["<pos key>"]`` or ``rec.get("<pos key>"[, fallback])``."""
+    if isinstance(e, ast.Subscript) and isinstance(e.slice, ast.Constant) and isinstance(e.slice.value, str) and _split_key(e.slice.value):
+        return e.slice.value, None
+    if isinstance(e, ast.Call) and isinstance(e.func, ast.Attribute) and e.func.attr == "get" and e.args and isinstance(e.args[0], ast.Constant) and isinstance(e.args[0].value, str) and _split_key(e.args[0].value):
+        return e.args[0].value, (e.args[1] if len(e.args) > 1 else None)
+    return None
+
+
+def _r23c(chk, repo) -> None:
+    import re
+
+    cmds = repo.mod("src/sqlfluff/cli/commands.py")
+    n = 0
+
+    def pair(node, target_key: str, value, where: str) -> None:
+        nonlocal n
+        rr = _record_read(value)
+        tc = _key_class(target_key)
+        if rr is None or tc is None:
+            return
+        n += 1
+        sc = SCHEMA_SUFFIX[_split_key(rr[0])[1]]
+        chk.require(
+            sc == tc, "R23c", node,
+            f"{where}: output key '{target_key}' (a {tc.lower()}) is filled from record entry '{rr[0]}' (a {sc.lower()})",
+            detail=f"{where}: {target_key} <- {_split_key(rr[0])[1][1:]} entry",
+        )
+        if rr[1] is not None:
+            fb = _record_read(rr[1])
+            if fb is not None:
+                fc = SCHEMA_SUFFIX[_split_key(fb[0])[1]]
+                chk.require(
+                    fc == sc, "R23c", node,
+                    f"{where}: '{rr[0]}' falls back to '{fb[0]}', which is a {fc.lower()} not a {sc.lower()}",
+                    detail=f"{where}: fallback of {rr[0]} has the same class",
+                )
+
+    for q, f in cmds.functions():
+        if not any(isinstance(x, ast.Constant) and isinstance(x.value, str) and _split_key(x.value) for x in ast.walk(f)):
+            continue
+        for node in walk_local(f):
+            if isinstance(node, ast.Dict):
+                for k, v in zip(node.keys, node.values):
+                    if isinstance(k, ast.Constant) and isinstance(k.value, str):
+                        pair(v, k.value, v, q)
+            elif isinstance(node, ast.Assign) and len(node.targets) == 1 and isinstance(node.targets[0], ast.Subscript) and isinstance(node.targets[0].slice, ast.Constant) and isinstance(node.targets[0].slice.value, str):
+                pair(node, node.targets[0].slice.value, node.value, q)
+            elif isinstance(node, ast.JoinedStr):
+                prev = ""
+                for part in node.values:
+                    if isinstance(part, ast.Constant) and isinstance(part.value, str):
+                        prev = part.value
+                    elif isinstance(part, ast.FormattedValue):
+                        m = re.search(r"([A-Za-z_]+)=$", prev)
+                        if m:
+                            pair(part, m.group(1), part.value, q)
+                        prev = ""
+    chk.count("R23c.writer_position_fields", n)
+    chk.floor("R23c.writer_position_fields", 8)
+
+
 def _enclosing_fors(node, stop):
     out = []
     p = getattr(node, "_parent", None)
@@ -641,6 +728,18 @@ VARIANTS = [
         "    def source_position(self) -> tuple[int, int]:\n        \"\"\"Return the line and position of this marker in the source.\"\"\"\n        return self.templated_file.get_line_pos_of_char_pos(\n            self.source_slice.start, source=True\n        )\n",
         "    def _source_start(self) -> int:\n        return self.source_slice.start\n\n    def source_position(self) -> tuple[int, int]:\n        \"\"\"Return the line and position of this marker in the source.\"\"\"\n        return self.templated_file.get_line_pos_of_char_pos(\n            self._source_start(), source=True\n        )\n",
         "QUIET", None, "offset obtained through an extracted accessor",
+    ),
+    Variant(
+        "quiet-lexer-offset-renamed-and-split", LEXER,
+        "                tfs_offset = tfs.source_slice.start - tfs.templated_slice.start\n",
+        "                _src0 = tfs.source_slice.start\n                _tpl0 = tfs.templated_slice.start\n                tfs_offset = _src0 - _tpl0\n",
+        "QUIET", None, "translation delta computed through two temporaries",
+    ),
+    Variant(
+        "quiet-end-point-patch-helper-extracted", PATCHPY,
+        "            yield FixPatch(\n                source_slice=source_slice,\n                templated_slice=templated_slice,\n                patch_category=\"end_point\",\n                fixed_raw=insert_buff,\n                templated_str=templated_file.templated_str[templated_slice],\n                source_str=templated_file.source_str[source_slice],\n            )\n",
+        "            yield _end_point_patch(source_slice, templated_slice, insert_buff, templated_file)\n\n\ndef _end_point_patch(src: slice, tpl: slice, raw: str, tf: TemplatedFile) -> FixPatch:\n    return FixPatch(\n        source_slice=src,\n        templated_slice=tpl,\n        patch_category=\"end_point\",\n        fixed_raw=raw,\n        templated_str=tf.templated_str[tpl],\n        source_str=tf.source_str[src],\n    )\n",
+        "QUIET", None, "patch construction extracted into a helper function",
     ),
     # ---- breaking edits -------------------------------------------------------------------------
     Variant(
@@ -744,6 +843,24 @@ VARIANTS = [
         "                    \"end_line_pos\",\n                    \"end_file_pos\",\n                ]:\n",
         "                    \"end_line_pos\",\n                ]:\n",
         "R23b", "SQLLintError.to_dict",
+    ),
+    Variant(
+        "sarif-end-column-from-line", "src/sqlfluff/cli/commands.py",
+        "                    region[\"endColumn\"] = violation[\"end_line_pos\"]\n",
+        "                    region[\"endColumn\"] = violation[\"end_line_no\"]\n",
+        "R23c", "lint",
+    ),
+    Variant(
+        "github-annotation-end-line-falls-back-to-column", "src/sqlfluff/cli/commands.py",
+        "                            \"end_line_no\", violation[\"start_line_no\"]\n",
+        "                            \"end_line_no\", violation[\"start_line_pos\"]\n",
+        "R23c", "lint",
+    ),
+    Variant(
+        "native-annotation-col-from-line", "src/sqlfluff/cli/commands.py",
+        "                line += f\"col={violation['start_line_pos']}\"\n",
+        "                line += f\"col={violation['start_line_no']}\"\n",
+        "R23c", "lint",
     ),
     Variant(
         "patch-source-text-cut-with-templated-slice", PATCHPY,
